@@ -261,7 +261,7 @@ func c06Run(cs *c06Case, r *gen.Rand) {
 				for _, id := range co.Listed {
 					if _, old := orig[id]; !old {
 						got, e := w.Download("repo", id, 0, nil)
-						if e != nil || !sameFiles(got, cs.merged) {
+						if e != nil || c15FilesDigest(got) != c15FilesDigest(cs.merged) { // kept conflict versions included
 							co.NewRead = false
 						}
 					}
